@@ -40,7 +40,7 @@ SINGLE = ["dot", "general", "concat"]
 CLASSES = [
     "dot", "general", "concat", "mh_dot", "mh_general", "mh_concat",
     "single_kept", "mh_mask_last_eq_heads", "no_mask", "neg_dim", "broadcast_query",
-    "mh_bias_flags", "saturated", "mh_single_kept", "rank2", "mh_broadcast_query",
+    "mh_bias_flags", "saturated", "mh_single_kept", "rank2", "mh_broadcast_query", "long_seq",
 ]
 _CLS_NAMES = {"dot": "DotProductSoftAttention", "general": "GeneralizedDotProductSoftAttention",
               "concat": "ConcatSoftAttention", "mh": "MultiHeadedAttention"}
@@ -159,6 +159,12 @@ def generate(rng, tier, i):
         p = rng.randrange(1, n - 1)
     T = rng.choice([1, 2, 2, 3, 3, 4, 4, 5][: 6 + (mx - 3)])
     full = [rng.randint(1, mx) for _ in range(n - 1)]
+    if cls == "long_seq":
+        # sequences far longer than anything the unit tests use (block-wise code paths), few other dims
+        n = 3
+        p = rng.randrange(0, 2)
+        T = rng.choice([257, 300, 520])
+        full = [rng.randint(1, 3), rng.randint(1, 3)]
     full[p] = T
     heads = rng.randint(1, 4)
     if cls == "mh_mask_last_eq_heads":
@@ -201,6 +207,18 @@ def generate(rng, tier, i):
             mask_off = rng.randint(1, p)
         msk_shape = msk_b[mask_off:]
         mask = _nested(rng, msk_shape, pk)
+        if cls == "long_seq":
+            mp = p - mask_off
+            for rest in _lines(msk_shape, mp):
+                a = rng.choice([0, rng.randrange(T), rng.randrange(256, T), T - 1])  # kept span [a, b)
+                b_ = rng.randint(a + 1, T)
+                style = rng.choice(["left_pad", "span", "random"])
+                for t in range(T):
+                    ix = tuple(rest[:mp]) + (t,) + tuple(rest[mp:])
+                    if style == "left_pad":
+                        _set(mask, ix, t >= a)
+                    elif style == "span":
+                        _set(mask, ix, a <= t < b_)
         _fix_mask(rng, mask, msk_shape, p - mask_off, cls in ("single_kept", "mh_single_kept"))
     # ---- module spec
     if cls == "no_mask" or cls == "saturated" or cls == "rank2":
@@ -337,7 +355,11 @@ def _tols(case):
         return 1e-12, 1e-10, 1e-10
     # float32: scores of magnitude ~10-100 carry ~1e-5 relative weight error after a re-associated
     # projection (largest seen over 2 x 96000 thorough cases: 1.5e-5); float64 cases give the sharp check
-    return 1e-6, 2e-4, 2e-5
+    # (the "exact" tolerance was 1e-6 until strided / offset input layouts were added: replacing masked rows of
+    # a non-contiguous key changes how the projection kernels block the matrix product, which moved results by
+    # up to 1.4e-6 relative on the unchanged tree; garbage at masked positions is of magnitude 1e3-1e4, so a
+    # genuine leak is still orders of magnitude above 1e-5, and float64 cases keep the sharp 1e-12 check)
+    return 1e-5, 2e-4, 2e-5
 
 
 def _cmp(mon, monitor, got, want, c, dtype, **details):
@@ -566,6 +588,25 @@ def execute(case, mon):
             if out4 is not None:
                 soft.run(_cmp, mon, "broadcast-query", out4, out, c_sum, dtype, query_shape=list(q.shape),
                          expanded_shape=list(q_full_shape))
+
+        # ---- 5. a history of calls on the same module object (inference mode): the same key / value tensor
+        # OBJECTS are handed over again after having been refilled in place - the output must be the one of
+        # their current contents (what a fresh pair of tensors with the same values gives)
+        was_training = mod.training
+        try:
+            mod.eval()
+            first = soft.run(_call, mon, mod, q, k, v, mask, name + "(eval)")
+            if first is not None:
+                soft.run(_cmp, mon, "eval-equals-train", first, out, c_sum, dtype)
+            with torch.no_grad():
+                k.mul_(-0.5).add_(0.25)
+                v.mul_(0.5).sub_(1.0)
+            again = soft.run(_call, mon, mod, q, k, v, mask, name + "(eval, refilled tensors)")
+            fresh = soft.run(_call, mon, mod, q, k.clone(), v.clone(), mask, name + "(eval, fresh tensors)")
+            if again is not None and fresh is not None:
+                soft.run(_cmp, mon, "same-objects-new-contents", again, fresh, c_sum, dtype)
+        finally:
+            mod.train(was_training)
     soft.finish()
 
 
